@@ -9,10 +9,10 @@ from ..core import bfs, digest
 
 ASSETS = ['A', 'B', 'C', 'D']
 TABLES = [
-    {'A': 10.37, 'B': 24.9, 'C': 101.5, 'D': 3.33},
-    {'A': 11.02, 'B': 23.55, 'C': 97.25, 'D': 3.61},
-    {'A': 9.96, 'B': 25.4, 'C': 110.75, 'D': 2.97},
-    {'A': 10.37002, 'B': 24.90005, 'C': 101.5002, 'D': 3.330007},      # table 0 moved by ~2e-6
+    {'A': 10.37, 'B': 24.9, 'C': 101.5, 'D': 0.33},
+    {'A': 11.02, 'B': 23.55, 'C': 97.25, 'D': 0.36},
+    {'A': 9.96, 'B': 25.4, 'C': 110.75, 'D': 0.29},
+    {'A': 10.37002, 'B': 24.90005, 'C': 101.5002, 'D': 0.3300007},      # table 0 moved by ~2e-6
 ]
 CLOSES = [pd.Timestamp(t, tz='UTC') for t in ('2020-03-02 21:00', '2020-03-03 21:00', '2020-03-04 21:00', '2020-03-05 21:00')]
 OPENS = [pd.Timestamp(t, tz='UTC') for t in ('2020-03-03 14:30', '2020-03-04 14:30', '2020-03-05 14:30', '2020-03-06 14:30')]
@@ -23,6 +23,7 @@ PRESETS = {
     'long_AB': [('A', 100), ('B', 50)],
     'long_A_short_C': [('A', 100), ('C', -30)],
     'holds_D': [('D', 40), ('B', 20)],
+    'penny': [('D', 1), ('A', 10)],      # one share of an asset quoted below 0.5: orders worth less than half a unit
     'large': [],          # 50,000,000 of funds: positions of millions of shares, adjustments of a few shares
 }
 
